@@ -62,6 +62,7 @@ PROPERTIES = {
     ),
     'C02': dict(
         level='proof',
+        native_probe='probe_builder',
         functions=_RT2 + _LEAF_PAIRS + ['fragments:Fragments.insert', 'fragments:Fragments.append', 'fragments:Fragments.tobytes'],
         trusted_base=_COMMON_TRUST + ['ghost clients only call repository functions through their contracts'],
         assumptions=[_COMPOSITION_NOTE,
@@ -183,6 +184,7 @@ PROPERTIES = {
     ),
     'C07': dict(
         level='proof',
+        native_probe='probe_builder',
         functions=['field:Bits.unpack', 'field:Bits.pack', 'field:Bits.__init__', 'field:Bits._compile', 'field:Bits.init',
                    'field:Int.__init__', 'field:Int._compile', 'ghost_clients:bits_compile_establishes_wf',
                    # the run's bytes are read and emitted through the shared Int: its four bodies carry the byte-level half of the statement
@@ -197,6 +199,7 @@ PROPERTIES = {
     ),
     'C17': dict(
         level='proof',
+        native_probe='probe_builder',
         functions=['descriptor:Auto._compile', 'descriptor:Auto.__get__', 'descriptor:Auto.__set__',
                    'descriptor:Auto.__delete__', 'descriptor:Auto.sync_before_pack',
                    'descriptor:AutoLength.calculate_length', 'packet:Packet.__init__',
@@ -272,6 +275,7 @@ PROPERTIES = {
     ),
     'C10': dict(
         level='proof',
+        native_probe='probe_builder',
         functions=['structural_fields:Move.unpack', 'structural_fields:Move.pack',
                    # per-element alignment of repeated fields (call assertions) and the fill of skipped bytes
                    'structural_fields:Sequence.unpack', 'structural_fields:Sequence.pack',
